@@ -105,7 +105,53 @@ def make_iterable(kind, n):
         return [(k, k + 100) for k in items]
     if kind == 'set1':
         return set(items[:1])
+    if kind == 'userlist':
+        import collections
+        return collections.UserList(items)
+    if kind == 'customseq':
+        return CustomSeq(items)
+    if kind == 'mappingkeys':
+        return CustomMapping(items).keys()
+    if kind == 'deque':
+        import collections
+        return collections.deque(items)
     raise KeyError(kind)
+
+
+class CustomSeq:
+    """a sized, indexable collection whose iterator is a plain generator (collections.abc.Sequence style)"""
+
+    def __init__(self, items):
+        self._items = list(items)
+
+    def __len__(self):
+        return len(self._items)
+
+    def __getitem__(self, i):
+        return self._items[i]
+
+    def __iter__(self):
+        for x in self._items:
+            yield x
+
+
+class CustomMapping:
+    def __init__(self, items):
+        self._d = {k: 1 for k in items}
+
+    def __getitem__(self, k):
+        return self._d[k]
+
+    def __iter__(self):
+        for k in self._d:
+            yield k
+
+    def __len__(self):
+        return len(self._d)
+
+    def keys(self):
+        import collections.abc
+        return collections.abc.KeysView(self)
 
 
 def make_L(outs, vals, log):
